@@ -649,6 +649,7 @@ def instr(s, ins, decls):
     if op == 'resume':
         s.emit('rt_exc_pending = 1; /* resume: re-raise the parked exception */'); s.emit(s.retdummy()); return
     if op in ('call', 'invoke'):
+        if '@llvm.experimental.noalias.scope.decl' in ins or '@llvm.dbg.' in ins: return
         s.call(op, p, dst, decls); return
     if op == 'fence': return
     raise SyntaxError('unhandled op ' + op)
